@@ -162,6 +162,8 @@ def mustReject : List String := [
   "hex-fixed-baddigit", "hex-bls-baddigit", "hex-var-baddigit",
   "hex-fixed-nonascii-digit", "hex-bls-nonascii-digit", "hex-var-nonascii-digit",
   "hex-fixed-space-digit", "hex-bls-space-digit", "hex-var-space-digit",
+  "hex-fixed-plus-digit", "hex-bls-plus-digit", "hex-var-plus-digit",
+  "hex-fixed-minus-digit", "hex-bls-minus-digit", "hex-var-minus-digit",
   "hex-fixed-odd-minus1digit", "hex-bls-odd-minus1digit", "hex-var-odd-minus1digit",
   "hex-fixed-odd-plus1digit", "hex-bls-odd-plus1digit", "hex-var-odd-plus1digit",
   "hex-bls-intlist-256",
